@@ -251,7 +251,7 @@ def source(env, run, script, counter):
             run.sched.put(make_packet(env, counter[0], flow, size))
 
 
-def run_impl(c):
+def run_impl(c, budget=20.0):
     """run case `c` on the real scheduler; returns the MQRun"""
     env = Environment()
     with quiet():
@@ -259,10 +259,10 @@ def run_impl(c):
     run = MQRun(env, sched, c)
     counter = [0]
     def on_alarm(signum, frame):
-        raise TimeoutError('the scheduler loop did not yield for 20 s of CPU time (it spins)')
+        raise TimeoutError(f'the scheduler loop did not yield for {budget:g} s of CPU time (it spins)')
     # CPU time of this process, not wall time: a busy machine must not look like a spinning scheduler
     old = signal.signal(signal.SIGPROF, on_alarm)
-    signal.setitimer(signal.ITIMER_PROF, 20.0)
+    signal.setitimer(signal.ITIMER_PROF, budget)
     try:
         for flow, size in c.get('pre', []):      # calls of put() before the kernel has run anything
             counter[0] += 1
@@ -361,10 +361,18 @@ def replay(cases):
     """run the cases on the implementation and through the model; returns (runs, model outputs, disagreements)"""
     from vlib.util import run_driver, split_cases
     runs, text = {}, []
-    for c in cases:
-        r = run_impl(c)
+    stuck = 0
+    for i, c in enumerate(cases):
+        r = run_impl(c, budget=20.0 if stuck == 0 else 3.0)
         runs[c['cid']] = r
         text.append(header(c)); text += r.acts; text.append('END')
+        if r.exhausted or (r.raised or '').startswith('TimeoutError'):
+            stuck += 1
+            if stuck >= 6:
+                # the scheduler under test spins or never comes to rest, case after case: each such case costs seconds of
+                # CPU, the finding is established - the remaining cases are not run (the list is cut in place)
+                del cases[i + 1:]
+                break
     model = split_cases(run_driver('mq', '\n'.join(text) + '\n'))
     dis = []
     for c in cases:
